@@ -87,6 +87,8 @@ type gl struct {
 	retSuffix   []string              // receiver fields handed back with every result
 	u64AsInt    bool
 	byteRd      bool // *bufio.Reader is used through ReadByte/UnreadByte: the abstract ByteRd
+	floatLean   string // Lean type standing for float64 (newick: distances are the model's opaque `Dist`), zero = none
+	heapUse     bool   // the function being translated touches the heap (reads count)
 	pendLabel   string
 	synthRhs    map[ast.Expr]string
 }
@@ -195,6 +197,69 @@ type extFunc struct {
 
 const heapLean = "List (List (UInt8 × Int))"
 
+// heapStruct: the struct type of heap cells
+func (g *gl) heapStruct() *types.Struct {
+	o := g.pkg.Scope().Lookup(g.heapT)
+	if o == nil {
+		g.die(nil, "heap type not found")
+	}
+	st, ok := o.Type().Underlying().(*types.Struct)
+	if !ok {
+		g.die(nil, "heap type is not a struct")
+	}
+	return st
+}
+
+// heapLeanT: the Lean type of the heap (a list of cells; a cell is the tuple of the struct's fields)
+func (g *gl) heapLeanT() string {
+	return "List " + paren(g.leanType(g.heapStruct()))
+}
+
+// heapUses: does the body touch the heap at all (field reads included), or call a function that does?
+func (g *gl) heapUses(fd *ast.FuncDecl) bool {
+	use := false
+	ast.Inspect(fd, func(n ast.Node) bool {
+		switch v := n.(type) {
+		case *ast.SelectorExpr:
+			if _, ok := g.heapField(v); ok {
+				use = true
+			}
+		case *ast.UnaryExpr:
+			if v.Op == token.AND {
+				if tv, ok := g.info.Types[v]; ok && g.isHeapPtr(tv.Type) {
+					use = true
+				}
+			}
+		case *ast.CompositeLit:
+			if tv, ok := g.info.Types[v]; ok && tv.Type != nil {
+				if sl, ok := tv.Type.Underlying().(*types.Slice); ok && g.isHeapPtr(sl.Elem()) && len(v.Elts) > 0 {
+					use = true
+				}
+			}
+		case *ast.CallExpr:
+			var fn *types.Func
+			switch f := v.Fun.(type) {
+			case *ast.Ident:
+				fn, _ = g.info.Uses[f].(*types.Func)
+			case *ast.SelectorExpr:
+				fn, _ = g.info.Uses[f.Sel].(*types.Func)
+			}
+			if fn != nil && fn.Pkg() == g.pkg {
+				if _, known := g.heapFuncs[fn.Name()]; known {
+					use = true
+				}
+				if ln, ok := g.methodNames[g.heapT+"."+fn.Name()]; ok {
+					if _, known := g.heapFuncs[ln]; known {
+						use = true
+					}
+				}
+			}
+		}
+		return true
+	})
+	return use
+}
+
 // isHeapPtr: t is *heapT
 func (g *gl) isHeapPtr(t types.Type) bool {
 	if g.heapT == "" || t == nil {
@@ -232,6 +297,15 @@ func (g *gl) heapWrites(body ast.Node) bool {
 					if _, ok := g.heapField(ie.X); ok {
 						wr = true
 					}
+				}
+				if _, ok := g.heapField(l); ok {
+					wr = true
+				}
+			}
+		case *ast.CompositeLit:
+			if tv, ok := g.info.Types[v]; ok && tv.Type != nil {
+				if sl, ok := tv.Type.Underlying().(*types.Slice); ok && g.isHeapPtr(sl.Elem()) && len(v.Elts) > 0 {
+					wr = true
 				}
 			}
 		case *ast.UnaryExpr:
@@ -277,6 +351,7 @@ func (g *gl) opaqueName(t types.Type) string {
 }
 
 type glFunc struct {
+	recvState []string // receiver fields it takes as parameters and hands back after its results (records mode)
 	exts    []string // stdlib functions it (transitively) takes as parameters, sorted
 	fuel    bool // takes a leading `fuel : Nat` parameter
 	name    string
@@ -337,6 +412,9 @@ func (g *gl) leanType(t types.Type) string {
 		case types.Float64, types.UntypedFloat:
 			if g.floatInt {
 				return "Int"
+			}
+			if g.floatLean != "" {
+				return g.floatLean
 			}
 		}
 	case *types.Slice:
@@ -404,6 +482,9 @@ func (g *gl) zero(t types.Type) string {
 		case types.Float64:
 			if g.floatInt {
 				return "(0 : Int)"
+			}
+			if g.floatLean != "" {
+				return "none"
 			}
 		}
 	case *types.Slice, *types.Map:
@@ -804,7 +885,16 @@ func (g *gl) expr(e ast.Expr) ex {
 		}
 	case *ast.SelectorExpr:
 		if x, ok := g.heapField(v); ok {
-			return ex{text: "idx heap " + g.expr(x).arg(), act: true} // a nil pointer (-1) is out of range: panic
+			st := g.heapStruct()
+			if st.NumFields() == 1 {
+				return ex{text: "idx heap " + g.expr(x).arg(), act: true} // a nil pointer (-1) is out of range: panic
+			}
+			for k := 0; k < st.NumFields(); k++ {
+				if st.Field(k).Name() == v.Sel.Name {
+					return ex{text: "(← idx heap " + g.expr(x).arg() + ")" + strings.TrimPrefix(tupleProj("X", k, st.NumFields()), "X"), atom: true}
+				}
+			}
+			g.die(v, "heap field")
 		}
 		if tv, ok := g.info.Types[v.X]; ok && tv.Type != nil {
 			if on := g.opaqueName(tv.Type); on != "" {
@@ -1363,8 +1453,27 @@ func (g *gl) nonNegative(e ast.Expr) bool {
 // heapAlloc emits the allocation for &heapT{field: e} (or &heapT{e}) and returns the new pointer as a term
 func (g *gl) heapAlloc(w *wr, u *ast.UnaryExpr) string {
 	cl, ok := u.X.(*ast.CompositeLit)
-	if !ok || len(cl.Elts) != 1 {
+	if !ok {
 		g.die(u, "allocation of the heap type")
+	}
+	return g.heapAllocLit(w, cl)
+}
+
+// heapAllocLit: the allocation for the composite literal of a heap cell (zero cell when it has no elements)
+func (g *gl) heapAllocLit(w *wr, cl *ast.CompositeLit) string {
+	st := g.heapStruct()
+	if st.NumFields() > 1 || len(cl.Elts) == 0 {
+		cell := g.zero(st)
+		if len(cl.Elts) > 0 {
+			cell = g.expr(cl).arg()
+		}
+		w.line("heap := heap ++ [" + bareZero(cell) + "]")
+		tp := g.tmp()
+		w.line("let " + tp + " : Int := (len heap) - 1")
+		return tp
+	}
+	if len(cl.Elts) != 1 {
+		g.die(cl, "allocation of the heap type")
 	}
 	var fv ast.Expr = cl.Elts[0]
 	if kv, ok := fv.(*ast.KeyValueExpr); ok {
@@ -1409,6 +1518,46 @@ func (g *gl) heapCall(c *ast.CallExpr) (string, bool, bool) {
 		parts = append(parts, g.expr(a).arg())
 	}
 	return strings.Join(parts, " "), wr, true
+}
+
+// recvStateCall: c is r.m(args) for the receiver r of the method being translated and a translated method m
+// of the same type that threads the receiver's fields; returns the call and the caller's field variables
+func (g *gl) recvStateCall(c *ast.CallExpr) (string, []string, bool) {
+	sel, ok := c.Fun.(*ast.SelectorExpr)
+	if !ok {
+		return "", nil, false
+	}
+	id, ok := sel.X.(*ast.Ident)
+	if !ok || g.structLoc[g.objOf(id)] == nil || g.recLocal[g.objOf(id)] {
+		return "", nil, false
+	}
+	fn, ok := g.info.Uses[sel.Sel].(*types.Func)
+	if !ok || fn.Pkg() != g.pkg {
+		return "", nil, false
+	}
+	lname, ok := g.methodNames["reader."+fn.Name()]
+	callee := g.funcs[lname]
+	if !ok || callee == nil || !callee.found || len(callee.recvState) == 0 {
+		return "", nil, false
+	}
+	parts := []string{lname}
+	for _, k := range callee.exts {
+		g.extUsed[k] = true
+		parts = append(parts, g.extFuncs[k].param)
+	}
+	if callee.fuel {
+		g.usesFuel = true
+		parts = append(parts, "fuel")
+	}
+	var flds []string
+	for _, f := range callee.recvState {
+		flds = append(flds, id.Name+"_"+f)
+	}
+	parts = append(parts, flds...)
+	for _, a := range c.Args {
+		parts = append(parts, g.expr(a).arg())
+	}
+	return strings.Join(parts, " "), flds, true
 }
 
 // readStringCall: c is <recv>.<field>.ReadString(delim) on a receiver field of type *bufio.Reader
@@ -1500,6 +1649,27 @@ func (g *gl) fieldOf(se *ast.SelectorExpr) (int, int, bool) {
 }
 
 func (g *gl) assignTo(w *wr, lhs ast.Expr, tok token.Token, rhs ast.Expr) {
+	if x, ok := g.heapField(lhs); ok && tok == token.ASSIGN {
+		// x.f = v through a pointer into the heap
+		se := lhs.(*ast.SelectorExpr)
+		st := g.heapStruct()
+		k := -1
+		for i := 0; i < st.NumFields(); i++ {
+			if st.Field(i).Name() == se.Sel.Name {
+				k = i
+			}
+		}
+		if k < 0 {
+			g.die(lhs, "heap field")
+		}
+		val := g.rhsOf(rhs).arg() // evaluated with the heap as it is before the write
+		tp, tc, tv := g.tmp(), g.tmp(), g.tmp()
+		w.line("let " + tv + " := " + val)
+		w.line("let " + tp + " : Int := " + g.expr(x).opnd())
+		w.line("let " + tc + " ← idx heap " + tp)
+		w.line("heap ← setIdx heap " + tp + " " + tupleSet(tc, k, st.NumFields(), tv))
+		return
+	}
 	if se, ok := lhs.(*ast.SelectorExpr); ok {
 		if id, isLoc := se.X.(*ast.Ident); isLoc && g.structLoc[g.objOf(id)] != nil {
 			// field of a struct-pointer local: a variable of its own
@@ -1628,6 +1798,50 @@ func (g *gl) stmt(w *wr, s ast.Stmt) {
 	}
 	if g.heapT != "" && g.rdKind == "" {
 		if v, ok := s.(*ast.AssignStmt); ok && len(v.Lhs) == 1 && len(v.Rhs) == 1 && (v.Tok == token.ASSIGN || v.Tok == token.DEFINE) {
+			// x := &T{…} / x = &T{…} / x := []*T{{…}, …}: allocations are statements
+			var ptr string
+			isSlice := false
+			if u, ok := v.Rhs[0].(*ast.UnaryExpr); ok && u.Op == token.AND && g.isHeapPtr(g.typeOf(u)) {
+				ptr = g.heapAlloc(w, u)
+			} else if cl, ok := v.Rhs[0].(*ast.CompositeLit); ok {
+				if sl, ok := g.typeOf(cl).Underlying().(*types.Slice); ok && g.isHeapPtr(sl.Elem()) && len(cl.Elts) > 0 {
+					var ps []string
+					for _, el := range cl.Elts {
+						switch e := el.(type) {
+						case *ast.CompositeLit:
+							ps = append(ps, g.heapAllocLit(w, e))
+						case *ast.UnaryExpr:
+							if e.Op != token.AND {
+								g.die(el, "slice literal element")
+							}
+							ps = append(ps, g.heapAlloc(w, e))
+						default:
+							g.die(el, "slice literal element")
+						}
+					}
+					ptr, isSlice = "["+strings.Join(ps, ", ")+"]", true
+				}
+			}
+			if ptr != "" {
+				id, isId := v.Lhs[0].(*ast.Ident)
+				if !isId {
+					g.die(v, "allocation assigned to a non-variable")
+				}
+				ann := " : Int"
+				if isSlice {
+					ann = " : List Int"
+				}
+				if v.Tok == token.DEFINE && g.info.Defs[id] != nil {
+					kw := "let "
+					if g.mut[g.objOf(id)] {
+						kw = "let mut "
+					}
+					w.line(kw + g.nameOf(g.objOf(id)) + ann + " := " + ptr)
+				} else {
+					w.line(g.lvName(id) + " := " + ptr)
+				}
+				return
+			}
 			if c, ok := v.Rhs[0].(*ast.CallExpr); ok {
 				if txt, wrs, ok := g.heapCall(c); ok && wrs {
 					id, isId := v.Lhs[0].(*ast.Ident)
@@ -1699,7 +1913,14 @@ func (g *gl) stmt(w *wr, s ast.Stmt) {
 				if tup, ok := g.typeOf(c).(*types.Tuple); ok && tup.Len() == len(v.Lhs) {
 					t := g.tmp()
 					nproj := tup.Len()
-					if fld, delim, ok := g.readStringCall(c); ok {
+					if txt, flds, ok := g.recvStateCall(c); ok {
+						// a, b := r.method(): the callee hands back the receiver's fields after its results
+						w.line("let " + t + " ← " + txt)
+						nproj = tup.Len() + len(flds)
+						for k, fl := range flds {
+							w.line(fl + " := " + tupleProj(t, tup.Len()+k, nproj))
+						}
+					} else if fld, delim, ok := g.readStringCall(c); ok {
 						// line, err := r.r.ReadString(d): the reader field is a state that the call advances
 						if delim == "" {
 							w.line("let " + t + " := readByte " + fld)
@@ -2148,7 +2369,24 @@ func (g *gl) stmt(w *wr, s ast.Stmt) {
 			w.line("return ((" + rec + ", " + g.expr(v.Results[1]).opnd() + "), " + g.rdState + ")")
 			return
 		}
-		if g.heapT != "" && g.rdKind == "" && g.yieldT == "" && len(v.Results) <= 1 {
+		if g.heapT != "" && g.heapUse && g.rdKind == "" && g.yieldT == "" && len(v.Results) > 1 && len(v.Results) == len(g.results) {
+			var parts []string
+			for i, r := range v.Results {
+				e := g.expr(r)
+				if isNilIdent(r) {
+					if n := g.nilOf(g.results[i].Type()); n != "" {
+						e = atomE(n)
+					}
+				}
+				parts = append(parts, e.opnd())
+			}
+			if g.heapWr {
+				parts = append(parts, "heap")
+			}
+			w.line("return (" + strings.Join(append(parts, g.retSuffix...), ", ") + ")")
+			return
+		}
+		if g.heapT != "" && g.heapUse && g.rdKind == "" && g.yieldT == "" && len(v.Results) <= 1 {
 			val := ""
 			if len(v.Results) == 1 {
 				if u, ok := v.Results[0].(*ast.UnaryExpr); ok && u.Op == token.AND && g.isHeapPtr(g.typeOf(u)) {
@@ -2240,7 +2478,30 @@ func (g *gl) block(w *wr, list []ast.Stmt) {
 		w.line("pure ()")
 		return
 	}
+	inSwitch := len(g.loops) > 0 && g.loops[len(g.loops)-1] == "switch" && g.rdKind == ""
 	for i, s := range list {
+		if inSwitch {
+			// `break` leaves the switch: `if c { A; break }; B` is `if c then A else B`; a trailing `break` is dropped
+			if br, ok := s.(*ast.BranchStmt); ok && br.Tok == token.BREAK && br.Label == nil && i == len(list)-1 {
+				if i == 0 {
+					w.line("pure ()")
+				}
+				return
+			}
+			if ifs, ok := s.(*ast.IfStmt); ok && ifs.Init == nil && ifs.Else == nil && len(ifs.Body.List) > 0 {
+				if br, ok := ifs.Body.List[len(ifs.Body.List)-1].(*ast.BranchStmt); ok && br.Tok == token.BREAK && br.Label == nil {
+					w.line("if " + g.expr(ifs.Cond).opnd() + " then")
+					w.ind++
+					g.block(w, ifs.Body.List) // its trailing break is dropped by the rule above
+					w.ind--
+					w.line("else")
+					w.ind++
+					g.block(w, list[i+1:])
+					w.ind--
+					return
+				}
+			}
+		}
 		if es, ok := s.(*ast.ExprStmt); ok && g.rdKind == "bytes" && g.rdCall(es.X) == "UnreadByte" {
 			// `pos := pos - 1` is only right if the loop over the input stops here
 			next, ok := ast.Stmt(nil), false
@@ -3030,6 +3291,7 @@ func (g *gl) funcOrMethod(recvType, goName, name, rel, placeholder string) {
 					params = append(params, "("+rn.Name+"_"+f.Name()+" : "+g.leanType(f.Type())+")")
 					if g.recT != nil {
 						// records mode: the receiver's fields are state, handed back with every result
+						g.funcs[name].recvState = append(g.funcs[name].recvState, f.Name())
 						shadow = append(shadow, rn.Name+"_"+f.Name())
 						g.retSuffix = append(g.retSuffix, rn.Name+"_"+f.Name())
 						recvTypes = append(recvTypes, paren(g.leanType(f.Type())))
@@ -3049,9 +3311,13 @@ func (g *gl) funcOrMethod(recvType, goName, name, rel, placeholder string) {
 		if (sig.Results == nil || len(sig.Results.List) == 0) && g.heapT == "" {
 			g.die(fd, "result list")
 		}
+		g.heapUse, g.heapWr = false, false
 		if g.heapT != "" {
-			g.heapWr = g.heapWrites(fd.Body)
-			g.heapFuncs[name] = g.heapWr
+			g.heapUse = g.heapUses(fd)
+			if g.heapUse {
+				g.heapWr = g.heapWrites(fd.Body)
+				g.heapFuncs[name] = g.heapWr
+			}
 		}
 		g.usesFuel = false
 		g.results, g.namedRes = nil, false
@@ -3169,26 +3435,38 @@ func (g *gl) funcOrMethod(recvType, goName, name, rel, placeholder string) {
 				w.line("let mut " + g.nameOf(r) + " : " + g.leanType(r.Type()) + " := " + bareZero(g.zero(r.Type())))
 			}
 		}
-		if g.heapT != "" && g.heapWr {
+		if g.heapT != "" && g.heapUse && g.heapWr {
 			w.line("let mut heap := heap")
 		}
 		g.block(w, body)
 		if g.yieldT != "" {
 			w.line("return log")
 		}
-		if g.heapT != "" {
+		if g.heapT != "" && g.heapUse {
+			hl := g.heapLeanT()
 			if rt == nil {
 				if g.heapWr {
 					w.line("return heap")
-					resT = heapLean
+					resT = hl
 				} else {
 					w.line("return ()")
 				}
+			} else if g.heapWr && len(g.results) == 1 {
+				resT = "(" + paren(resT) + " × " + hl + ")"
 			} else if g.heapWr {
-				resT = "(" + paren(resT) + " × " + heapLean + ")"
+				// several results: (results…, heap, receiver state…)
+				var ts []string
+				for _, r := range g.results {
+					ts = append(ts, paren(g.leanType(r.Type())))
+				}
+				resT = "(" + strings.Join(append(append(ts, paren(hl)), recvTypes...), " × ") + ")"
 			}
-			params = append([]string{"(heap : " + heapLean + ")"}, params...)
-			doc += "; `heap` is the list of the map fields of all " + g.heapT + " nodes allocated so far, a *" + g.heapT + " is an index into it (nil = -1)"
+			params = append([]string{"(heap : " + hl + ")"}, params...)
+			if g.heapStruct().NumFields() == 1 {
+				doc += "; `heap` is the list of the map fields of all " + g.heapT + " nodes allocated so far, a *" + g.heapT + " is an index into it (nil = -1)"
+			} else {
+				doc += "; `heap` is the list of all " + g.heapT + " cells allocated so far (each the tuple of its fields), a *" + g.heapT + " is an index into it (nil = -1)"
+			}
 		}
 		g.yieldT = ""
 		globals := g.sortedGlobals()
@@ -3956,6 +4234,20 @@ func goLean(repo, out string) {
 	g2.method("reader", "nextToken", "newick_nextToken", "formats/newick", "def newick_nextToken (fuel : Nat) (r_r : ByteRd) (r_b : "+B+") : Option (("+B+") × GoErr × ByteRd × ("+B+")) := none")
 	g2.recT, g2.byteRd = nil, false
 	w.WriteString(g2.funcs["newick_nextToken"].text + "\n")
+	// formats/newick: the parser `(*reader).read` over an explicit heap of Node cells (name, distance, children);
+	// float64 distances are the model's opaque `Dist` (none = 0), strconv.ParseFloat is a parameter
+	g2b := loadPkg(filepath.Join(repo, "formats", "newick"))
+	g2b.recT, g2b.byteRd = map[string]bool{}, true
+	g2b.heapT, g2b.floatLean = "Node", "Newick.Dist"
+	const PFLOAT = "List UInt8 → Int → Newick.Dist × GoErr"
+	const NHEAP = "List ((List UInt8) × Newick.Dist × (List Int))"
+	g2b.extFuncs = map[string]extFunc{"strconv.ParseFloat": {"strconv_ParseFloat", PFLOAT}}
+	g2b.methodNames = map[string]string{"reader.nextToken": "newick_nextToken", "reader.read": "newick_read"}
+	g2b.function("quoted", "formats/newick", "def quoted (s : "+B+") : Option Bool := none")
+	g2b.function("nameFromText", "formats/newick", "def nameFromText (s : "+B+") : Option ("+B+") := none")
+	g2b.method("reader", "nextToken", "newick_nextToken", "formats/newick", "def newick_nextToken (fuel : Nat) (r_r : ByteRd) (r_b : "+B+") : Option (("+B+") × GoErr × ByteRd × ("+B+")) := none")
+	g2b.method("reader", "read", "newick_read", "formats/newick", "def newick_read (strconv_ParseFloat : "+PFLOAT+") (fuel : Nat) (heap : "+NHEAP+") (r_r : ByteRd) (r_b : "+B+") : Option (Int × GoErr × ("+NHEAP+") × ByteRd × ("+B+")) := none")
+	w.WriteString(g2b.funcs["newick_read"].text + "\n")
 	g8 := loadPkg(filepath.Join(repo, "formats", "bed"))
 	// the read side: parseLine and (*reader).read.  *BED is an Option tuple, *bufio.Reader the abstract BufRd,
 	// strconv.Atoi / strconv.ParseUint are parameters
